@@ -148,6 +148,24 @@ impl Builder {
             record_counter: MIN_RECORD_COUNTER,
         }
     }
+
+    /// Builds a CRAM writer with the given container layout (verification harness only).
+    #[cfg(noodles_verif)]
+    #[doc(hidden)]
+    pub fn verif_build_from_writer_with_layout<W>(
+        self,
+        writer: W,
+        records_per_slice: usize,
+        slices_per_container: usize,
+    ) -> Writer<W>
+    where
+        W: Write,
+    {
+        let mut writer = self.build_from_writer(writer);
+        writer.context.records_per_slice = records_per_slice;
+        writer.records = Vec::with_capacity(records_per_slice * slices_per_container);
+        writer
+    }
 }
 
 pub fn uses_cram_3_1_codecs(block_content_encoder_map: &BlockContentEncoderMap) -> bool {
